@@ -241,9 +241,9 @@ fn check_pair(l: &mut Laws<'_>, i: usize, j: usize, reps: usize, rng: &mut Rng, 
             {
                 let mut same = (a == ValueViewCmp::new(&b)) == cow_b;
                 match &rb {
-                    RVal::Int(n) => same &= (a == *n) == cow_b,
-                    RVal::Float(f) => same &= (a == *f) == cow_b && (ValueCow::Borrowed(&a) == *f) == cow_b,
-                    RVal::Bool(x) => same &= (a == *x) == cow_b,
+                    RVal::Int(n) => same &= (a == *n) == cow_b && (ValueViewCmp::new(&a) == *n) == cow_b,
+                    RVal::Float(f) => same &= (a == *f) == cow_b && (ValueCow::Borrowed(&a) == *f) == cow_b && (ValueViewCmp::new(&a) == *f) == cow_b,
+                    RVal::Bool(x) => same &= (a == *x) == cow_b && (ValueViewCmp::new(&a) == *x) == cow_b,
                     RVal::Str(x) => {
                         let (ks, kc) = (liquid::model::KString::from_ref(x), liquid::model::KStringCow::from_ref(x));
                         same &= (a == *x.as_str()) == cow_b
@@ -254,11 +254,16 @@ fn check_pair(l: &mut Laws<'_>, i: usize, j: usize, reps: usize, rng: &mut Rng, 
                             && (ValueCow::Borrowed(&a) == x.as_str()) == cow_b
                             && (ValueCow::Borrowed(&a) == x.clone()) == cow_b
                             && (ValueCow::Borrowed(&a) == ks) == cow_b
-                            && (ValueCow::Borrowed(&a) == kc) == cow_b;
+                            && (ValueCow::Borrowed(&a) == kc) == cow_b
+                            && (ValueViewCmp::new(&a) == *x.as_str()) == cow_b
+                            && (ValueViewCmp::new(&a) == x.as_str()) == cow_b
+                            && (ValueViewCmp::new(&a) == x.clone()) == cow_b
+                            && (ValueViewCmp::new(&a) == liquid::model::KString::from_ref(x)) == cow_b
+                            && (ValueViewCmp::new(&a) == liquid::model::KStringCow::from_ref(x)) == cow_b;
                     }
                     RVal::DateTime(t) => {
                         if let Some(d) = liquid::model::DateTime::from_str(t) {
-                            same &= (a == d) == cow_b && (ValueCow::Borrowed(&a) == d) == cow_b;
+                            same &= (a == d) == cow_b && (ValueCow::Borrowed(&a) == d) == cow_b && (ValueViewCmp::new(&a) == d) == cow_b;
                         }
                     }
                     RVal::Date(t) => {
